@@ -1,6 +1,6 @@
 (* C17 -- What fences does not understand is rejected with its own exception. (error-class lemmas of the models) *)
 From Coq Require Import String.
-From Fences Require Import Format FormatProofs Normalize Regex Grammar ErrClass Xml XmlErr.
+From Fences Require Import Format FormatProofs Normalize Regex Grammar ErrClass Xml XmlErr Normalize NormNF JsonGen JsonErr.
 
 (* format_parameter_value never fails with a non-library error *)
 Theorem C17_format_no_internal_error : forall name st explode v,
@@ -54,3 +54,34 @@ Theorem C17_xsd_bad_facet :
   = PyErr EKeyError.
 Proof. exact bad_enumeration. Qed.
 Print Assumptions C17_xsd_bad_facet.
+
+(* The generator half of the JSON front end, for every input of normalize(): on whatever normal form normalize() returns,
+   provided its "type" values are scalars or lists of scalars (tyokb, executable: what set(...) needs), the model of
+   fences.json_schema.parse.parse (definitions, any-of entries, the type handlers, object and array handlers, resolve(),
+   optimize(), input / output nodes) returns a graph, runs out of recursion depth, or fails with JsonSchemaException /
+   ResolveReferenceException; no Python exception is reachable.  normalize() itself is not covered by a theorem of this
+   kind (its keyword mergers raise TypeError on ill-typed keyword values; on metaschema-valid documents this is observed,
+   not proved). *)
+Theorem C17_json_generator_own : forall SV cfg fuel schema nf fuel',
+  normalize SV cfg fuel schema = Ok nf -> tyokb nf = true ->
+  match parse_nf fuel' nf with PyErr _ => False | _ => True end.
+Proof. exact parse_nf_own. Qed.
+Print Assumptions C17_json_generator_own.
+
+(* not vacuous: a schema with a type list, nested properties, items and a recursive reference is normalised to a document
+   that meets the hypothesis, and parse returns a graph for it *)
+Example C17_json_generator_nonvacuous :
+  exists nf st r,
+    normalize (mkSV true) (mkNConfig true default_discard false) 60
+      (JObj [(kw "type", JArr [JStr (kw "object"); JStr (kw "null")]);
+             (kw "properties", JObj [(kw "a", JObj [(kw "type", JStr (kw "array")); (kw "items", JObj [(kw "$ref", JStr (kw "#"))])]);
+                                     (kw "b", JObj [(kw "enum", JArr [JNum 1; JStr (kw "x")])])]);
+             (kw "required", JArr [JStr (kw "b")])]) = Ok nf
+    /\ tyokb nf = true /\ parse_nf 60 nf = Ok (st, r).
+Proof.
+  match goal with |- exists nf st r, ?N = _ /\ _ => destruct N as [nf| | |] eqn:E; try (vm_compute in E; discriminate) end.
+  exists nf.
+  assert (T : tyokb nf = true) by (vm_compute in E; inversion E; subst nf; vm_compute; reflexivity).
+  destruct (parse_nf 60 nf) as [[st r]| | |] eqn:P; try (vm_compute in E; inversion E; subst nf; vm_compute in P; discriminate).
+  exists st, r. auto.
+Qed.
